@@ -53,6 +53,12 @@ def scenarios(tier, seed):
     return out
 
 
+def models(tier, seed):
+    return [dict(module="D_Crossbar", cfg="MC_Crossbar_live.cfg", label="crossbar: global progress under fair bank service (liveness)", workers=2, timeout=1800),
+            dict(module="D_Crossbar", cfg="MC_Crossbar_d6.cfg", label="known finding D6 on the model: one master can be starved by another streaming to the same bank",
+                 workers=2, timeout=1800, expect_violation=True)]
+
+
 def execute(sc, workdir):
     r = execute_core(sc, workdir, ID, ("rsp",))
     r["nontrivial"] = [[sc["memtype"], sc["clk_khz"]] + sc["name"].split("-")[1:3]]
@@ -62,4 +68,7 @@ def execute(sc, workdir):
 
 
 def finding_key(entry, sc):
+    # entry = ["C05", clause, port, t_offer, t_accept, bound, nholders]
+    if entry[1] in ("offered command accepted later than Bacc", "offered command never accepted") and len(entry) >= 7:
+        return "%s|bank served %s other port(s) meanwhile" % (entry[1], "exactly one" if entry[6] == 1 else str(entry[6]))
     return str(entry[1])
